@@ -6,3 +6,4 @@ import CssVerif.Props.C20
 #print axioms CssVerif.C20.snapshot_counterexample
 #print axioms CssVerif.C20.urljoin_rfc
 #print axioms CssVerif.C20.above_root_differs
+#print axioms CssVerif.C20.enc_nested
